@@ -9,7 +9,7 @@ What the model cannot exhibit (named in DESIGN.md): the OS signal path, the ctrl
 interleavings on the real atomics (the theorem covers them on the model; the run forces the handler-atomic ones).
 """
 ID = 'C18'
-GEN_DEPS = []
+GEN_DEPS = ['GenShutdown']
 RULE = ('(a) every placement of the interrupt relative to the k-th poll of the accept loop (before it / between load and swap / between swap and re-check / after it), '
         'k = 1..4 with reactor wakes before it, exhaustively, and with a connection waiting at any subset of the polls (the loop under load); (b) wait-group histories of 0-6 sessions with polls anywhere, any completion order, and sessions ending INSIDE a poll at the n-th touch of the waker (a touch-counting waker: clone / wake / wake_by_ref / drop); '
         '(c) the real howl in a child process under a real SIGINT with 0-3 keep-alive sessions closed in every order, one of them possibly after a handler panic; '
